@@ -81,7 +81,8 @@ Proof.
 Qed.
 
 (* finite, over the regenerated registry: every parameter whose type accepts an iterator
-   and rejects scalars limits what it is given *)
+   and rejects scalars (decided on the live type: check(generator) holds, check(1) does not)
+   limits what it is given *)
 Theorem C08_typed_params_limited : forall p, In p params -> collection_typed p = true -> p_limiting p = true.
 Proof. exact typed_params_limited. Qed.
 
